@@ -3,6 +3,9 @@ package props
 import (
 	"encoding/json"
 	"fmt"
+	"github.com/vektah/gqlparser/v2/formatter"
+	"github.com/vektah/gqlparser/v2/validator"
+	"strconv"
 	"strings"
 	"time"
 
@@ -31,12 +34,22 @@ func init() {
 // sub-checks whose documents are few).
 var c19Respell bool
 
+// c19Validate: when non-nil, the parsed document is validated against this schema first (a
+// validated document holds pointers into the schema).
+var c19Validate *ast.Schema
+
 func c19Case(c *explore.Ctx, s *explore.SubStats, text string) {
 	explore.Crumb(s.Name, text)
 	d, err := parser.ParseQuery(&ast.Source{Input: text, Name: "in"})
 	if err != nil {
 		s.Skipped++
 		return
+	}
+	if c19Validate != nil {
+		if errs := validator.Validate(c19Validate, d); len(errs) > 0 {
+			s.Skipped++
+			return
+		}
 	}
 	s.Executions++
 	s.Transitions++
@@ -300,6 +313,48 @@ func runC19(c *explore.Ctx) {
 			c19Case(c, s, b.String())
 		}
 		c19Respell = false
+		s.WallS = time.Since(t0).Seconds()
+	}
+	// validated documents (what a server caches): the links into the schema must not get in the way
+	s = c.Sub("validated", "every document of the validation-kit profiles operations and arguments (thorough: also links, values, directives, fragments, variables) that validates against the rich kit schema (types, scalars, enums and input objects of which carry type-level directives), validated first", "as above", "documents that validate")
+	if s != nil {
+		t0 := time.Now()
+		c19Validate = kitSchema(0)
+		profs := []string{"operations", "arguments"}
+		if c.Thorough() {
+			profs = []string{"links", "values", "directives", "fragments", "variables"}
+		}
+		for _, prof := range profs {
+			forEachProfileDoc(c, s, prof, func(d kitDoc) {
+				if d.Schema == 0 {
+					s.States++
+					c19Case(c, s, d.Doc)
+				}
+			})
+		}
+		c19Validate = nil
+		s.WallS = time.Since(t0).Seconds()
+	}
+	// string values of every awkward character
+	s = c.Sub("strings", fmt.Sprintf("every string value of ≤ 2 symbols over the %d awkward characters of C12 (control characters, DEL, non-printable astral runes, quotes, backslashes, U+2028, U+FFFD …) as a quoted and as a block string, in an argument, a list and an object", len(c12Chars)), "as above: values intact", "every value")
+	if s != nil {
+		t0 := time.Now()
+		st, _, _ := explore.Seqs(len(c12Chars), 2, c.Shard, c.NShards, c.Expired, func(sym []int) bool {
+			v := gen.RenderStrs(c12Chars, sym)
+			q := strconv.Quote(v)
+			// strconv.Quote is Go syntax; the GraphQL text is built by the formatter from a tree instead
+			doc := &ast.QueryDocument{Operations: ast.OperationList{{Operation: ast.Query, SelectionSet: ast.SelectionSet{&ast.Field{Alias: "f", Name: "f", Arguments: ast.ArgumentList{
+				{Name: "a", Value: &ast.Value{Kind: ast.StringValue, Raw: v}},
+				{Name: "b", Value: &ast.Value{Kind: ast.ListValue, Children: ast.ChildValueList{{Value: &ast.Value{Kind: ast.BlockValue, Raw: v}}}}},
+				{Name: "c", Value: &ast.Value{Kind: ast.ObjectValue, Children: ast.ChildValueList{{Name: "k", Value: &ast.Value{Kind: ast.StringValue, Raw: v}}}}},
+			}}}}}}
+			var b strings.Builder
+			formatter.NewFormatter(&b).FormatQueryDocument(doc)
+			_ = q
+			c19Case(c, s, b.String())
+			return true
+		})
+		s.States += st
 		s.WallS = time.Since(t0).Seconds()
 	}
 	// comments are kept in the tree (Comment fields): a comment in front of any token must not
